@@ -55,10 +55,10 @@ def cobs_catalogue(tier):
     return c
 
 
-SCALARS = [{'t': 'num', 'k': k} for k in ('int', 'float', 'negfloat', 'complex', 'npfloat', 'npint', 'complex0', 'npcomplex')]
+SCALARS = [{'t': 'num', 'k': k} for k in ('int', 'float', 'negfloat', 'complex', 'npfloat', 'npint', 'complex0', 'npcomplex', 'npcomplex64')]
 ARRAYS = [{'t': 'arr', 'k': 'f2'}, {'t': 'arr', 'k': 'i3'}]
 SCALAR_VALUES = {'int': 2, 'float': 0.5, 'negfloat': -1.5, 'complex': 1 + 2j, 'npfloat': np.float64(0.75), 'npint': np.int64(3),
-                 'complex0': complex(2.0, 0.0), 'npcomplex': np.complex128(0.5 - 1j)}
+                 'complex0': complex(2.0, 0.0), 'npcomplex': np.complex128(0.5 - 1j), 'npcomplex64': np.complex64(0.5 + 1j)}
 ARRAY_VALUES = {'f2': np.array([0.5, 2.5]), 'i3': np.array([1, 2, 3])}
 
 
@@ -93,12 +93,6 @@ def chain_sets(s, tier):
         d.update(chain_sets(s['im'], tier))
         return d
     return {}
-
-
-def bare_mix(sa, sb, tier):
-    a = set(chain_sets(sa, tier)) | set(chain_sets(sb, tier))
-    ens_bare = set(n for n in a if '|' not in n)
-    return any(n.split('|')[0] in ens_bare for n in a if '|' in n)
 
 
 def build_operand(pe, s, tier, key, mean, sigma=0.05):
@@ -228,12 +222,12 @@ def compare_structure(pe, got, exp_re, exp_im, values_only=False):
     return None
 
 
-def compare_identity(pe, got, exp_re, exp_im):
+def compare_identity(pe, got, exp_re, exp_im, tol=1e-10):
     if not isinstance(got, pe.CObs):
         return 'result is %s, expected a CObs' % type(got).__name__
     gre, gim = compare.to_ref_any(got, pe)
-    return (ref.r_identical(exp_re, gre, 1e-10) and 'real part: ' + ref.r_identical(exp_re, gre, 1e-10)) or \
-        (ref.r_identical(exp_im, gim, 1e-10) and 'imaginary part: ' + ref.r_identical(exp_im, gim, 1e-10)) or None
+    return (ref.r_identical(exp_re, gre, tol) and 'real part: ' + ref.r_identical(exp_re, gre, tol)) or \
+        (ref.r_identical(exp_im, gim, tol) and 'imaginary part: ' + ref.r_identical(exp_im, gim, tol)) or None
 
 
 def is_complex_spec(s):
@@ -274,7 +268,7 @@ def build(tier, seed):
     for i in range(0, len(triples), 8):
         cases.append({'kind': 'tree', 'triples': [list(t) for t in triples[i:i + 8]]})
     # (iv) array mode
-    arr_lays = list(itertools.product(range(min(nl, 20)), repeat=2))
+    arr_lays = list(itertools.product(range(nl), repeat=2))
     for la, lb in arr_lays:
         cases.append({'kind': 'array', 'la': la, 'lb': lb})
     return cases
@@ -344,7 +338,7 @@ def _ops_for(sa, sb):
     if ca or cb or sa['t'] == 'cobs' or sb['t'] == 'cobs':
         return ['+', '-', '*', '/']
     if sa['t'] == 'arr' or sb['t'] == 'arr':
-        return ['+', '-', '*', '/']
+        return ['+', '-', '*', '/', '**'] if (real_obs(sa) or real_obs(sb)) else ['+', '-', '*', '/']
     return ['+', '-', '*', '/', '**']
 
 
@@ -354,9 +348,6 @@ def run_bin(pe, acc, tier, case):
         ops = [case['op']]
     else:
         ops = _ops_for(sa, sb)
-    if bare_mix(sa, sb, tier):
-        acc.skip('bare-replica-mix')
-        return
     arr = sa['t'] == 'arr' or sb['t'] == 'arr'
     ka, kb = ('a', spec_name(sa)), ('b', spec_name(sb))
     if arr:
@@ -420,10 +411,12 @@ def run_bin(pe, acc, tier, case):
                 else:
                     acc.ok((spec_name(sa), op, spec_name(sb), path), False, 'cobs-outside-regime(value+chains only)')
                 continue
+            # a single-precision partner (np.complex64) is combined in single-precision scalar arithmetic
+            single = any(sp.get('k') == 'npcomplex64' for sp in (sa, sb))
             if mixed_cobs:
-                bad = compare_identity(pe, got, exp_re, exp_im)
+                bad = compare_identity(pe, got, exp_re, exp_im, 1e-6 if single else 1e-10)
             else:
-                bad = compare_result(pe, got, exp_re, exp_im, 1e-6 if path == 'num' else 1e-10)
+                bad = compare_result(pe, got, exp_re, exp_im, 1e-6 if (path == 'num' or single) else 1e-10)
             if bad:
                 acc.fail(sig, sub, '%s %s %s via %s: %s' % (spec_name(sa), op, spec_name(sb), path, bad))
             else:
@@ -569,9 +562,6 @@ def run_tree(pe, acc, tier, case):
     lays = alpha.layouts(tier)
     for tr in case['triples']:
         specs = [{'t': 'obs', 'lay': i} for i in tr]
-        if bare_mix(specs[0], specs[1], tier) or bare_mix(specs[0], specs[2], tier) or bare_mix(specs[1], specs[2], tier):
-            acc.skip('bare-replica-mix')
-            continue
         leaves = [build_operand(pe, s, tier, ('leaf', j, tr[j]), m) for j, (s, m) in enumerate(zip(specs, (1.3, 0.8, 1.7)))]
         impl = [l[0] for l in leaves]
         refs = [l[1][0] for l in leaves]
@@ -629,9 +619,6 @@ def run_array(pe, anp, acc, tier, case):
     (operands of one call must have equal shapes: np.asarray of the operand list)."""
     lays = alpha.layouts(tier)
     la, lb = case['la'], case['lb']
-    if bare_mix({'t': 'obs', 'lay': la}, {'t': 'obs', 'lay': lb}, tier):
-        acc.skip('bare-replica-mix')
-        return
 
     def mat(shape, tag, base):
         M = np.empty(shape, dtype=object)
